@@ -1,4 +1,4 @@
-import SaModel.Lemmas.C18BlameMap
+import SaModel.Lemmas.C18BlameDict
 /-
 C18, blame against the specification: the mutual recursion over the serde value — EVERY `SVal` constructor into every
 builder family (`push_bl`), with the element / field / entry loops (`pushElems_bl`, `pushCountElems_bl`,
@@ -16,12 +16,14 @@ theorem bytes_self_mem {ext : Ext} {path : String} {dt n md} {bs : Bytes}
   all_goals simp [blameDT, hi]
 
 theorem unitVariant_self_mem {ext : Ext} {b : B} {path : String} {dt n md} {a : String} {i : Nat} {vn : String}
-    (hsh : Shape b dt n md) (hb : isUnion b = false) (hi : (interpDT ext dt n md (.unitVariant a i vn)).isOk = false) :
+    (hsh : Shape b dt n md) (hb : isUnion b = false) (hd : b.isDict = false)
+    (hi : (interpDT ext dt n md (.unitVariant a i vn)).isOk = false) :
     path ∈ blameDT ext path dt n md (.unitVariant a i vn) := by
   cases dt
   case union ufs mode =>
     obtain ⟨_, _, _, _, _, rfl⟩ := Shape_union_form hsh; simp [isUnion] at hb
-  all_goals simp [blameDT, hi]
+  case dictionary k v => obtain ⟨_, _, _, _, rfl⟩ := Shape_dict_form hsh; simp [B.isDict] at hd
+  all_goals simp [blameDT, hi, blameScalarAt]
 
 theorem newtypeVariant_self_mem {ext : Ext} {b : B} {path : String} {dt n md} {a : String} {i : Nat} {vn : String} {v : SVal}
     (hsh : Shape b dt n md) (hb : isUnion b = false) (hi : (interpDT ext dt n md (.newtypeVariant a i vn v)).isOk = false) :
@@ -64,21 +66,55 @@ theorem nodup_not_mem_take {l : List String} {j : Nat} {a : String} (hnd : l.Nod
 /-- every call that is a plain scalar call on every builder -/
 theorem scalar_bl {ext : Ext} [ExtPlain ext] {x : SVal} {b : B} {path : String} {dt n md} (hg : GoodH b dt n md)
     (ha : At path dt n md b) (hraw : noRaw x = true) (hcap : vsize ext x ≤ room b)
-    (hS : blameDT ext path dt n md x = if (interpDT ext dt n md x).isOk then [] else [path])
+    (hS : blameDT ext path dt n md x = if (interpDT ext dt n md x).isOk then [] else blameScalarAt ext path dt x)
+    (hix : ∀ k v, dt = .dictionary k v → interpDT ext dt n md x = interpScalar ext dt x)
     (hp : push ext b x = ctx b.ann (pushScalar ext b x)) : Bl (blameDT ext path dt n md x) (push ext b x) := by
   by_cases hi : (interpDT ext dt n md x).isOk = true
   · exact bl_of_interp_ok hg hraw hcap hi
   · rw [hS, if_neg hi, hp]
-    exact Bl.ctx_self b (by rw [ha.path]; exact List.mem_singleton.2 rfl) (NoCtx.bl _)
+    by_cases hd : b.isDict = true
+    · -- a dictionary column: the value child takes the string (`dict_scalar_bl`)
+      cases b with
+      | dictionary p idx vals index =>
+        have hsh := hg.shape
+        simp only [Shape] at hsh
+        obtain ⟨⟨kdt, vdt, rfl, _⟩, _⟩ := hsh
+        exact dict_scalar_bl hg ha (by rw [← hix kdt vdt rfl]; exact not_isOk_false hi)
+      | _ => simp [B.isDict] at hd
+    · have hd' : b.isDict = false := by simpa using hd
+      rw [blameScalarAt_of_not_dict hg.shape hd']
+      exact Bl.ctx_self b (by rw [ha.path]; exact List.mem_singleton.2 rfl)
+        (@NoCtx.bl _ _ _ (pushScalar_noctx ext b x hd'))
 
-theorem pushByteElems_bl (ext : Ext) [ExtPlain ext] (large : Bool) {cpath : String} {S : List String} (hc : cpath ∈ S) :
-    ∀ (bs : Bytes) (el : B) (offs : List Int), el.path = cpath → Bl S (pushByteElems ext large el offs bs)
-  | [], el, offs, _ => by unfold pushByteElems; exact Bl.of_ok _
-  | x :: rest, el, offs, hp => by
+/-- `ListBuilder::serialize_bytes`: every byte goes to the element builder as `serialize_u8`; what the element builder
+refuses is blamed where `blameScalarAt` says — the element column, or for a dictionary element its value child
+(`hfail`: the value type of a dictionary element takes no strings; otherwise every byte has a meaning) -/
+theorem pushByteElems_bl (ext : Ext) [ExtPlain ext] (large : Bool) {cpath : String} {cdt : DataType} {cn : Bool}
+    {cmd : Metadata} {S : List String} (hc : ∀ q ∈ blameScalarAt ext cpath cdt (.int .u8 0), q ∈ S)
+    (hfail : ∀ k v, cdt = .dictionary k v → ∀ y, (interpScalar ext cdt (.int .u8 y)).isOk = false) :
+    ∀ (bs : Bytes) (el : B) (offs : List Int), GoodH el cdt cn cmd → At cpath cdt cn cmd el →
+    Bl S (pushByteElems ext large el offs bs)
+  | [], el, offs, _, _ => by unfold pushByteElems; exact Bl.of_ok _
+  | x :: rest, el, offs, hg, ha => by
     unfold pushByteElems
-    refine Bl.bind (NoCtx.bl _) fun _ _ => Bl.bind (Bl.ctx_self el (hp ▸ hc) (NoCtx.bl _)) fun el' h' => ?_
-    have e := pushScalar_takeRest ext el _ el' ((Build.ctx_ok _ _ _).1 h')
-    exact pushByteElems_bl ext large hc rest el' _ (by rw [← path_takeRest el', e, path_takeRest, hp])
+    have hstep : Bl S (ctx el.ann (pushScalar ext el (.int .u8 x.toNat))) := by
+      by_cases hd : el.isDict = true
+      · cases el with
+        | dictionary p idx vals index =>
+          have hsh := hg.shape
+          simp only [Shape] at hsh
+          obtain ⟨⟨kdt, vdt, rfl, _⟩, _⟩ := hsh
+          refine Bl.mono (fun q hq => hc q ?_) (dict_scalar_bl hg ha (hfail kdt vdt rfl _))
+          rw [blameScalarAt_int .u8 .u8 0 x.toNat]; exact hq
+        | _ => simp [B.isDict] at hd
+      · have hd' : el.isDict = false := by simpa using hd
+        rw [blameScalarAt_of_not_dict hg.shape hd'] at hc
+        exact Bl.ctx_self el (by rw [ha.path]; exact hc _ (List.mem_singleton.2 rfl))
+          (@NoCtx.bl _ _ _ (pushScalar_noctx ext el _ hd'))
+    refine Bl.bind (NoCtx.bl _) fun _ _ => Bl.bind hstep fun el' h' => ?_
+    have h'' := (Build.ctx_ok _ _ _).1 h'
+    exact pushByteElems_bl ext large hc hfail rest el' _ (hg.pushScalar h'')
+      (ha.of_takeRest (pushScalar_takeRest ext el _ el' h''))
 
 set_option linter.unusedSectionVars false
 variable (ext : Ext) [ExtPlain ext]
@@ -102,14 +138,14 @@ theorem push_bl : ∀ (x : SVal), noRaw x = true → ∀ (b : B) (path : String)
     by_cases hi : (interpDT ext dt n md .none).isOk = true
     · exact bl_of_interp_ok hg hraw hcap hi
     · rw [push]
-      have : blameDT ext path dt n md .none = [path] := by simp [blameDT, hi]
+      have : blameDT ext path dt n md .none = [path] := by simp [blameDT, hi, blameScalarAt_of_nostr (x := .none) rfl]
       rw [this]
       exact pushNone_bl hg ha (by simp only [vsize] at hcap; exact hcap)
   | .unit, hraw => by
     intro b path dt n md hg ha hcap
     by_cases hi : (interpDT ext dt n md .unit).isOk = true
     · exact bl_of_interp_ok hg hraw hcap hi
-    · have : blameDT ext path dt n md .unit = [path] := by simp [blameDT, hi]
+    · have : blameDT ext path dt n md .unit = [path] := by simp [blameDT, hi, blameScalarAt_of_nostr (x := .unit) rfl]
       rw [this]
       unfold push
       split
@@ -117,27 +153,28 @@ theorem push_bl : ∀ (x : SVal), noRaw x = true → ∀ (b : B) (path : String)
       · exact pushNone_bl hg ha (by simp only [vsize] at hcap; exact hcap)
   | .bool v, hraw => by
     intro b path dt n md hg ha hcap
-    exact scalar_bl hg ha hraw hcap (by simp [blameDT]) (by rw [push])
+    exact scalar_bl hg ha hraw hcap (by simp [blameDT]) (by rintro k v rfl; simp [interpDT, isUnknownVariant]) (by rw [push])
   | .int t v, hraw => by
     intro b path dt n md hg ha hcap
-    exact scalar_bl hg ha hraw hcap (by simp [blameDT]) (by rw [push])
+    exact scalar_bl hg ha hraw hcap (by simp [blameDT]) (by rintro k v rfl; simp [interpDT, isUnknownVariant]) (by rw [push])
   | .f32 v, hraw => by
     intro b path dt n md hg ha hcap
-    exact scalar_bl hg ha hraw hcap (by simp [blameDT]) (by rw [push])
+    exact scalar_bl hg ha hraw hcap (by simp [blameDT]) (by rintro k v rfl; simp [interpDT, isUnknownVariant]) (by rw [push])
   | .f64 v, hraw => by
     intro b path dt n md hg ha hcap
-    exact scalar_bl hg ha hraw hcap (by simp [blameDT]) (by rw [push])
+    exact scalar_bl hg ha hraw hcap (by simp [blameDT]) (by rintro k v rfl; simp [interpDT, isUnknownVariant]) (by rw [push])
   | .char v, hraw => by
     intro b path dt n md hg ha hcap
-    exact scalar_bl hg ha hraw hcap (by simp [blameDT]) (by rw [push])
+    exact scalar_bl hg ha hraw hcap (by simp [blameDT]) (by rintro k v rfl; simp [interpDT, isUnknownVariant]) (by rw [push])
   | .str v, hraw => by
     intro b path dt n md hg ha hcap
-    exact scalar_bl hg ha hraw hcap (by simp [blameDT]) (by rw [push])
+    exact scalar_bl hg ha hraw hcap (by simp [blameDT]) (by rintro k v rfl; simp [interpDT, isUnknownVariant]) (by rw [push])
   | .unitStruct v, hraw => by
     intro b path dt n md hg ha hcap
     by_cases hi : (interpDT ext dt n md (.unitStruct v)).isOk = true
     · exact bl_of_interp_ok hg hraw hcap hi
-    · have : blameDT ext path dt n md (.unitStruct v) = [path] := by simp [blameDT, hi]
+    · have : blameDT ext path dt n md (.unitStruct v) = [path] := by
+        simp [blameDT, hi, blameScalarAt_of_nostr (x := .unitStruct v) rfl]
       rw [this]
       unfold push
       split
@@ -160,13 +197,42 @@ theorem push_bl : ∀ (x : SVal), noRaw x = true → ∀ (b : B) (path : String)
           cases large
           · simp only [Bool.false_eq_true, if_false] at hdt; subst hdt; exact At.list (.inl ha)
           · simp only [if_true] at hdt; subst hdt; exact At.list (.inr ha)
-        have hc : (path ++ "." ++ childName cname) ∈ blameDT ext path dt n md (.bytes bs) := by
+        have hc : ∀ q ∈ blameScalarAt ext (path ++ "." ++ childName cname) cdt (.int .u8 0),
+            q ∈ blameDT ext path dt n md (.bytes bs) := by
           cases large
-          · simp only [Bool.false_eq_true, if_false] at hdt; subst hdt; simp [blameDT, hi']
-          · simp only [if_true] at hdt; subst hdt; simp [blameDT, hi']
+          · simp only [Bool.false_eq_true, if_false] at hdt; subst hdt; intro q hq; simp [blameDT, hi', hq]
+          · simp only [if_true] at hdt; subst hdt; intro q hq; simp [blameDT, hi', hq]
+        have hgel : GoodH el cdt cn cmd := by
+          have hw := hg.wf
+          have hnd := hg.nd
+          have ht := hg.tot
+          simp only [WFH] at hw
+          simp only [NoDictKey] at hnd
+          exact ⟨hw.2.2, hnd, hsel, by cases large <;> (simp only [Bool.false_eq_true, if_false, if_true] at hdt; subst hdt; simpa [total, totalF] using ht)⟩
+        -- a dictionary element with string values gives every byte a meaning: then the whole value has one
+        have hfail : ∀ k v, cdt = .dictionary k v → ∀ y, (interpScalar ext cdt (.int .u8 y)).isOk = false := by
+          rintro k v rfl y
+          obtain ⟨_, _, _, _, rfl⟩ := Shape_dict_form hsel
+          have hsh := hsel
+          simp only [Shape] at hsh
+          obtain ⟨⟨kdt', vdt', heq, hsv⟩, _, _, hu⟩ := hsh
+          cases heq
+          rcases hu with hu | hr
+          · exfalso
+            obtain ⟨ls, hls⟩ := mapM_interp_dict_utf8 (ext := ext) (kdt := k) hsv hu bs
+            cases large
+            · simp only [Bool.false_eq_true, if_false] at hdt; subst hdt
+              simp [interpDT, isUnknownVariant, hls, R.isOk, bind, Except.bind, pure, Except.pure] at hi'
+            · simp only [if_true] at hdt; subst hdt
+              simp [interpDT, isUnknownVariant, hls, R.isOk, bind, Except.bind, pure, Except.pure] at hi'
+          · have hall : ∀ s, (interpDictStr ext v s).isOk = false := fun s => by
+              obtain ⟨e, he⟩ := interpDictStr_refused ext s hsv hr
+              rw [he]; rfl
+            simp only [interpScalar, scalarToString]
+            exact hall _
         exact Bl.bind (NoCtx.bl _) fun _ _ => Bl.bind (NoCtx.bl _) fun _ _ =>
-          Bl.bind (pushByteElems_bl ext large hc bs el _ hael.path) fun _ _ => Bl.of_ok _
-      | _ => exact NoCtx.bl _
+          Bl.bind (pushByteElems_bl ext large hc hfail bs el _ hgel hael) fun _ _ => Bl.of_ok _
+      | _ => exact @NoCtx.bl _ _ _ (pushScalar_nostr_noctx ext _ _ rfl)
   | .seq xs, hraw => by
     intro b path dt n md hg ha hcap
     have hraw' : noRaws xs = true := by simpa [noRaw] using hraw
@@ -236,9 +302,19 @@ theorem push_bl : ∀ (x : SVal), noRaw x = true → ∀ (b : B) (path : String)
         · split
           · rw [ann_eq_posAnn]; exact ctx_never_plain _ _ _
           · exact pushNone_never_plain c msg
+      | dictionary p idx vals index =>
+        -- a dictionary column takes the variant's name as a string: the value child is blamed for refusing it
+        have hsh := hg.shape
+        simp only [Shape] at hsh
+        obtain ⟨⟨kdt, vdt, rfl, _⟩, _⟩ := hsh
+        have hS : blameDT ext path (.dictionary kdt vdt) n md (.unitVariant a i vn) =
+            blameScalarAt ext path (.dictionary kdt vdt) (.unitVariant a i vn) := by simp [blameDT, hi']
+        rw [hS]
+        exact dict_scalar_bl hg ha (by simpa [interpDT] using hi')
       | null _ _ | unknownVariant _ | leaf _ _ _ _ | bytes _ _ _ _ _ | bytesView _ _ _ _ _ | fixedSizeBinary _ _ _ _ _ _
-      | list _ _ _ _ _ _ | fixedSizeList _ _ _ _ _ _ _ | map _ _ _ _ _ _ | struct _ _ _ _ _ _ _ | dictionary _ _ _ _ =>
-        exact Bl.ctx_self _ (by rw [ha.path]; exact unitVariant_self_mem hg.shape rfl hi') (NoCtx.bl _)
+      | list _ _ _ _ _ _ | fixedSizeList _ _ _ _ _ _ _ | map _ _ _ _ _ _ | struct _ _ _ _ _ _ _ =>
+        exact Bl.ctx_self _ (by rw [ha.path]; exact unitVariant_self_mem hg.shape rfl rfl hi')
+          (@NoCtx.bl _ _ _ (pushScalar_noctx ext _ _ rfl))
   | .newtypeVariant a i vn v, hraw => by
     intro b path dt n md hg ha hcap
     have hraw' : noRaw v = true := by simpa [noRaw] using hraw
